@@ -23,25 +23,38 @@ class TypeGen:
         self.enums = {}
         self.zero = allow_zero_sized
 
-    def ty_plain(self, depth, structs=False):
-        """Booleans, integers, arrays and tuples (at least two components) of them, optionally structs: no enums"""
+    def ty_plain(self, depth, structs=False, enums=False):
+        """Booleans, integers, arrays and tuples (at least two components) of them, optionally structs and enums"""
         r = self.rng.random()
+        if enums and depth > 0 and r > 0.88:
+            if self.enums and self.rng.random() < 0.4:
+                return self.enums[self.rng.choice(sorted(self.enums))]
+            variants = []
+            for i in range(self.rng.choice([2, 3, 4, 5])):
+                if self.rng.random() < 0.4:
+                    variants.append([f"V{i}", True, []])
+                else:
+                    variants.append([f"V{i}", False, [self.ty_plain(depth - 1, structs, False) for _ in range(self.rng.choice([0, 1, 2]))]])
+            name = f"E{len(self.enums)}"
+            t = {"k": "enum", "name": name, "variants": variants}
+            self.enums[name] = t
+            return t
         if depth <= 0 or r < 0.4:
             if self.rng.random() < 0.2:
                 return {"k": "bool"}
             return {"k": "int", "t": self.rng.choice(list(INTS))}
         if r < 0.65:
-            return {"k": "array", "elem": self.ty_plain(depth - 1, structs), "n": self.rng.choice([1, 2, 3])}
+            return {"k": "array", "elem": self.ty_plain(depth - 1, structs, enums), "n": self.rng.choice([1, 2, 3])}
         if structs and r > 0.85:
             if self.structs and self.rng.random() < 0.4:
                 return self.structs[self.rng.choice(sorted(self.structs))]
             names = sorted(self.rng.sample(FIELD_NAMES, self.rng.choice([1, 2, 3])))
-            fields = [[f, self.ty_plain(depth - 1, structs)] for f in names]
+            fields = [[f, self.ty_plain(depth - 1, structs, enums)] for f in names]
             name = f"S{len(self.structs)}"
             t = {"k": "struct", "name": name, "fields": fields}
             self.structs[name] = t
             return t
-        return {"k": "tuple", "ts": [self.ty_plain(depth - 1, structs) for _ in range(self.rng.choice([2, 2, 3]))]}
+        return {"k": "tuple", "ts": [self.ty_plain(depth - 1, structs, enums) for _ in range(self.rng.choice([2, 2, 3]))]}
 
     def ty(self, depth):
         r = self.rng.random()
